@@ -1,2 +1,3 @@
 import SedpackModel.Hash
 import SedpackModel.Filler
+import SedpackModel.Pool
